@@ -44,19 +44,9 @@ contract(T + 'clock_expire',
                          'and wallclock() >= self.expire_time)'},
          pure=True, props=['C32'])
 
-contract('cylc.flow.task_events_mgr:TaskEventsManager.process_message',
-         sorts={'self': 'TaskEventsManager', 'itask': 'TaskProxy', 'severity': 'int', 'message': 'str',
-                'event_time': 'opt[str]', 'flag': 'str', 'submit_num': 'opt[int]', 'forced': 'bool',
-                'result': 'bool'},
-         requires=['implies(message == "expired" and not forced, expirable(itask))'],
-         modifies=['all:[*]', 'all:TaskState.status', 'all:TaskState.is_held', 'all:TaskState.is_queued',
-                   'all:TaskState.is_runahead', 'all:TaskState.is_updated', 'all:TaskState.kill_failed',
-                   'all:TaskState.time_updated', 'all:TaskProxy.transient', 'all:TaskProxy.submit_num',
-                   'all:TaskProxy.waiting_on_job_prep', 'all:TaskProxy.is_manual_submit',
-                   'all:TaskPool.active_tasks_changed', 'all:TaskPool.tasks_removed'],
-         assumed=True, props=['C32', 'C10', 'C02'],
-         note='250-line dispatcher: effects unconstrained (any task state / pool content may change); '
-              'only its precondition for the "expired" message is used')
+# TaskEventsManager.process_message (the sink of the "expired" message) is under contract in
+# contracts/c10_messages.py: its precondition `message == "expired" and not forced => expirable(itask)`
+# generates the call-site obligation in clock_expire_tasks below.
 
 contract(P + 'clock_expire_tasks',
          sorts={'self': 'TaskPool'},
